@@ -82,12 +82,14 @@ package core
 //@   props C03
 //@   arith int unchecked
 //@   ghost ncall int = 0
+//@   ghost ncoerce int = 0
 //@   ghost RSlen int = 0
 //@   ghost RS0 rv = RV_zero()
 //@   oncall ParamsTypeChange
 //@     assert [C03] coerced: ncall == 0 && arg0 == rv_method(obj, methodName) && arr(arg1) == arr(parameters) && lo(arg1) == lo(parameters) && len(arg1) == len(parameters)
+//@     after ncoerce := ncoerce + 1
 //@   oncall (reflect.Value).Call
-//@     assert [C03] positional: ncall == 0 && recv == rv_method(obj, methodName) && arr(arg0) == arr(parameters) && lo(arg0) == lo(parameters) && len(arg0) == len(parameters)
+//@     assert [C03] positional: ncall == 0 && ncoerce == 1 && recv == rv_method(obj, methodName) && arr(arg0) == arr(parameters) && lo(arg0) == lo(parameters) && len(arg0) == len(parameters)
 //@     after ncall := ncall + 1
 //@     after RSlen := len(callresult)
 //@     after RS0 := ite(len(callresult) > 0, callresult[0], RV_zero())
